@@ -515,3 +515,9 @@ package js_ast
 // then ToString, which throws for a Symbol), so the key may be rewritten to a string addition only where the two agree:
 // when the key is a primitive literal.
 //@ guarded computed-key-to-string-addition-only-for-primitives C04: func=(HelperContext).SimplifyUnusedExpr ; in=js_ast ; site=store EBinary.Left ; scenario=unused_object_symbol_key ; when=*.Key ; require=true:call IsPrimitiveLiteral(*)
+
+// C04 / C03: the value of an expression STATEMENT is discarded; the operand of `return` in an async function is not: it
+// resolves the function's promise, and promise resolution ADOPTS a thenable (ECMA-262 27.2.1.3.2: calls its `then`, and
+// a rejected promise makes the async function's own promise reject too, unhandled). An expression statement may be
+// turned into the returned expression of an arrow only when the arrow is not async.
+//@ guarded statement-value-becomes-return-value-only-if-not-async C04 C03: func=(HelperContext).SimplifyUnusedExpr ; in=js_ast ; site=store SReturn.ValueOrNil ; scenario=async_iife_promise_adoption ; require=false:*.IsAsync
